@@ -46,6 +46,9 @@ def runs(rng, tier):
     # second join (monitors only, see lean/Driver/JoinDrv.lean)
     for pol in POLICIES[:3]:
         out.append([rng.below(1 << 30), 0, 'joinpend', 1, '--pika:threads=1', f'--pika:scheduler={pol}'])
+    # directed: interrupt() on a finished thread, then unrelated threads on the recycled objects pass interruption points
+    for i, pol in enumerate(POLICIES[:4]):
+        out.append([rng.below(1 << 30), 0, 'staleintr', 4, f'--pika:threads={(1, 2, 4, 3)[i]}', f'--pika:scheduler={pol}'])
     return out
 
 
